@@ -110,3 +110,29 @@ CHECKS["C17"] = {
     "technique": "deterministic crash/restart simulation on a simulated file system (process-kill model with torn writes), with enumeration of all kill points per seeded workload and history oracles for recovery, re-computation and completion",
     "determinism_runs": 600, "exec_timeout": 300, "batch_timeout": 900, "minimise_s": 120,
 }
+
+SIM_COMPONENTS_SIMULATED = ["thread scheduler: every std::thread / std::mutex / condition_variable operation is an interposed scheduling point decided by one seeded stream (random walk, PCT, round-robin, starvation, run-to-block)",
+                            "pre-emption at instrumented memory accesses (g++ -fsanitize=thread hooks, linked without libtsan)", "discrete-event clock (nanosleep/clock_gettime interposed)",
+                            "spurious condition-variable wake-ups, adversarial notify_one target", "model callback (injective values, latency on the simulated clock, every call logged with the global event sequence number)"]
+
+CHECKS["C18"] = {
+    "id": "C18", "engine": "sched+sync+race", "flavour": "thr", "binary": "build/thr/c18", "level": "exploration",
+    "tiers": {"quick": {"runs": 12000, "batch": 100, "wall_cap": 300}, "thorough": {"runs": 400000, "batch": 200, "wall_cap": 2400}},
+    "rule": "one case = a seeded workload (parallel constructSurrogate: family, rule, dims, outputs, jobs 1-6, batch 1-3, budget 1-35 incl. below the job count, tolerance/criteria or anisotropic type/weights, "
+            "level limits, initial guess, optionally a pre-loaded grid, public overload or constructCommon; or threaded loadNeededValues: 0-6 threads, overwrite or not, array or vector overload, fresh/loaded/refined grid) "
+            "+ a latency model (zero, uniform, heavy-tailed, one slow worker, equal) + one seeded schedule (strategy, pre-emption rate, spurious wake-ups, notify target); "
+            "distinct = distinct (workload shape, synchronisation-event interleaving); distinct_interleavings = distinct hashes of the sequence of synchronisation events (who ran, on which object, who was chosen next)",
+    "components": {"real": ["TasGrid::constructCommon<mode_parallel> (worker protocol, main loop, CandidateManager, CompleteStorage)", "TasGrid::loadNeededValues<mode_parallel> (work queue)", "the grids' dynamic construction",
+                            "libstdc++ std::thread / std::mutex / std::condition_variable wrappers (their pthread calls are interposed)"],
+                   "simulated": SIM_COMPONENTS_SIMULATED, "stub": ["libpthread synchronisation and sleep/clock entry points (replaced by the scheduler for simulation tasks)"]},
+    "expect_probes": ["reach.budget_below_jobs", "reach.candidates_exhausted_or_tolerance_reached", "reach.budget_reached", "reach.two_model_calls_overlap", "reach.candidate_refresh_while_jobs_running",
+                      "reach.load_compared_with_sequential", "reach.more_threads_than_points", "fault.spurious_wakeup", "fault.preemption_at_memory_access", "fault.clock_jump_to_timer"],
+    "assumptions": ["the model is thread-safe and returns the documented number of values", "uninstrumented code (libstdc++.so internals) is invisible to the race detector: possible misses, no false alarms; memcpy/memmove/memset are interposed as range events",
+                    "deadlock, step-cap and internal errors end the worker process (SIM-FATAL) and are re-executed from the plan in a fresh process"],
+    "level_text": "seeded exploration of thread schedules (all pthread synchronisation points and a seeded subset of memory accesses are scheduling points) and model latencies, with the statement's clauses checked over the "
+                  "model-call log, the final grid, the scheduler (termination within a step cap, deadlock) and a happens-before race detector over every instrumented access",
+    "level_note": "samples schedules; a clean batch is evidence, not proof. Race detection is happens-before based: a race between two executed accesses is reported in every schedule that executes both. Trusted: the interposition layer (sim/simrt.cpp), the model log",
+    "technique": "deterministic simulation of threads (real threads, one runs at a time, seeded scheduler at every interposed pthread operation and at instrumented memory accesses; simulated clock; spurious wake-ups) "
+                 "with a happens-before race detector and history oracles over the model-call log",
+    "determinism_runs": 600, "exec_timeout": 120, "batch_timeout": 600, "minimise_s": 90,
+}
